@@ -23,6 +23,7 @@ RULE = ("the C14 operation sequences (vault operations with and without LP colla
         "operations (open / mint with LP collateral, deposit_uni / withdraw_uni, burn / withdraw, liquidate / reduce debt / update() after price moves): after "
         "every step the count clause (every position: not flagged and in no vault, or flagged and in exactly one vault) and the value-level exactly-once equation "
         "uniNV·WETH + squeethNV = Σ_free poolValue·WETH + Σ_vaults (coll + lent LP at the index price)·WETH − Σ short·mark on the reported figures. "
+        "actuator-run-pool-ops:* — whole Actuator runs whose strategy mixes those pool operations with its vault operations (update() liquidates at bar end). "
         "direct:* / direct-directed:* — the same with DIRECT calls of the public uni_market.transfer_position_out / transfer_position_in by the strategy: "
         "the first state with a position counted 0 or 2 times ends the sequence (known findings squeeth.direct-transfer.*; without a direct call the same "
         "observation is reported under squeeth.once.flagged-without-vault / squeeth.once.vault-position-not-flagged)")
@@ -436,11 +437,13 @@ def lent_lp_directed(ctx, pending):
                 view_point(ctx, w, pending, f"{name}:{'ok' if err is None else err}", f"lent-lp:{'closed' if closed else 'open'}:{'shock' + str(shock) if shock else 'flat'}")
 
 
-def actuator_runs(ctx, pending):
+def actuator_runs(ctx, pending, rng=None, pool_ops=False):
     """whole backtests through the real Actuator: minutely oSQTH/WETH pool + SqueethMarket over a generated price / norm-factor path with a
     shock; the strategy adds liquidity, opens vaults (some with the LP position lent as collateral), deposits / withdraws the LP, burns and
     withdraws at random bars; `update()` liquidates at bar end.  At EVERY bar, after `update()`, the raw state is valued independently and
-    compared with the views, and the net value the run REPORTS for that bar (`Actuator._account_status_list`) must be that same number."""
+    compared with the views, and the net value the run REPORTS for that bar (`Actuator._account_status_list`) must be that same number.
+    `pool_ops` (with its own `rng`): the strategy also works on the pool side — add_liquidity on new / free / lent ranges, remove_liquidity, collect_fee —
+    between its vault operations."""
     import contextlib
     import io
     import logging
@@ -449,7 +452,7 @@ def actuator_runs(ctx, pending):
     from datetime import timedelta
     os.environ["TQDM_DISABLE"] = "1"
     from demeter import Strategy, Actuator
-    rng = ctx.rng
+    rng = rng or ctx.rng
     logging.disable(logging.CRITICAL)
     n = rng.randint(8, 20)
     rows = G.gen_rows(rng, n, 1, (rng.randint(2, n - 2), rng.choice([1.25, 1.5, 2.0, 0.7])))
@@ -480,6 +483,7 @@ def actuator_runs(ctx, pending):
     view.tokens = {"WETH": weth, "OSQTH": osqth}
     view.log, view.flip = [], flip
     seen = []
+    kinds = set()
 
     class Strat(Strategy):
         def on_bar(self, snapshot):
@@ -491,7 +495,12 @@ def actuator_runs(ctx, pending):
                 if rng.random() < 0.25:
                     G.add_position(rng, view, fees=rng.random() < 0.3)
                     continue
-                op, _ = G.gen_op(rng, view, view.dump_state())
+                if pool_ops and rng.random() < 0.5:
+                    op, _ = G.gen_pool_op(rng, view, view.dump_state())
+                    view.apply_op(op)
+                    kinds.add(op["k"])
+                    continue
+                op, _ = G.gen_lp_vault_op(rng, view, view.dump_state()) if pool_ops else G.gen_op(rng, view, view.dump_state())
                 if op["k"] in ("update", "reduceDebt"):
                     continue
                 view.apply_op(op)
@@ -500,7 +509,7 @@ def actuator_runs(ctx, pending):
             state = view.dump_state()
             envj = L.snapshot_env(view)
             tw, to = sq.get_twap_price(weth), sq.get_twap_price(osqth)
-            seen.append((state, dict(view.env), envj, tw, to, view.cur(), observe_views(view)))
+            seen.append((state, dict(view.env), envj, tw, to, view.cur(), observe_views(view), all(isinstance(p.liquidity, int) for p in uni.positions.values())))
 
     act.strategy = Strat()
     try:
@@ -510,20 +519,20 @@ def actuator_runs(ctx, pending):
         ctx.violate(f"squeeth.run.raises:{type(ex).__name__}", f"Actuator.run raised {type(ex).__name__}({str(ex)[:80]})", {"rows": rows})
     finally:
         logging.disable(logging.NOTSET)
-    for k, (state, env, envj, tw, to, cur, obs) in enumerate(seen):
+    for k, (state, env, envj, tw, to, cur, obs, int_liq) in enumerate(seen):
         last = f"run-bar{min(k, 3)}"
-        replay = {"spec": state, "env": env, "after": f"actuator run, bar {k}", "acct_quote": obs["acct_quote"]}
+        replay = {"spec": state, "env": env, "after": f"actuator run, bar {k}" + (f" (pool operations so far: {sorted(kinds)})" if pool_ops else ""), "acct_quote": obs["acct_quote"]}
         oracle(ctx, state, env, envj, tw, to, cur, obs, replay, last)
         if k < len(act._account_status_list) and "account_net_value" in obs:
             rep_nv = D(act._account_status_list[k].net_value)
             if L.fr(rep_nv) != L.fr(obs["account_net_value"]):
                 ctx.violate("squeeth.run.reported-net-value", f"bar {k}: the run reports net value {rep_nv}, the account valued in the state after update() is "
                             f"{obs['account_net_value']}", replay)
-        if not flip:
+        if not flip and int_liq:
             pending.append(({"fn": "views", "ctx": "py", "state": state, "env": envj}, obs, replay, last))
         n_lp = sum(1 for _, v in state["vaults"] if v["nft"])
-        ctx.case(f"{'flip:' if flip else ''}actuator-run:lp{min(n_lp, 2)}:v{min(len(state['vaults']), 3)}:free{min(sum(1 for _, p in state['positions'] if not p['transferred']), 2)}")
-    ctx.count("actuator_runs")
+        ctx.case(f"{'flip:' if flip else ''}actuator-run{'-pool-ops' if pool_ops else ''}:lp{min(n_lp, 2)}:v{min(len(state['vaults']), 3)}:free{min(sum(1 for _, p in state['positions'] if not p['transferred']), 2)}")
+    ctx.count("actuator_runs_pool_ops" if pool_ops else "actuator_runs")
 
 
 def run(ctx: Ctx):
@@ -541,6 +550,8 @@ def run(ctx: Ctx):
         interleaved(ctx, pending, irng, direct=True, every=1 if ctx.thorough else 3)
     for _ in range(ctx.scale(3, 40)):
         direct_transfer_directed(ctx, pending, irng)
+    for _ in range(ctx.scale(8, 200)):
+        actuator_runs(ctx, pending, rng=irng, pool_ops=True)
     ctx.impl_traces = len(pending)
     if ctx.driver_ok and pending:
         modelled = [p for p in pending if not p[2]["env"].get("flip")]      # the model knows the mainnet orientation (token0 = WETH) only
